@@ -442,6 +442,24 @@ def coll(t, depth=0):
         adds = []
         base = _adds(t, (), adds)
         return list(coll_src(base, depth + 1)) + _expand_batch(adds, (), frozenset(), depth + 1)
+    if (t[0] == "match" and len(t) == 3 and isinstance(t[2], tuple)) or (t[0] == "if" and len(t) == 4):
+        # a decision between collections (`match x { A => vec![a], B => vec![b, c], _ => vec![] }`): each outcome's elements under its facts
+        from . import leaves as _L
+        with _L.self_contained():
+            lvs = _decision_leaves(case_of_case(t))
+        groups = []
+        for lts, lv in lvs:
+            if isinstance(lv, tuple) and lv[:1] in (("never",), ("panic",)):
+                continue
+            for s2, a2 in coll_src(lv, depth + 1):
+                a3 = []
+                for t2, e2 in a2:
+                    ft = _finish_tests(list(lts) + list(t2))
+                    if ft is not None:
+                        a3.append((ft, e2))
+                if a3:
+                    groups.append(_group(s2, a3))
+        return _merge(groups)
     if t[0] == "call" and len(t) == 3:
         n, a = t[1], t[2]
         if n in PASS and len(a) >= 1:
@@ -533,7 +551,48 @@ def canon(t):
             pass
     if t[0] == "acc" and len(t) == 2:
         return canon(t[1])
+    if t[0] == "try" and len(t) == 2:
+        inner = canon(t[1])
+        if isinstance(inner, tuple) and inner[:1] == ("coll",):
+            # `iter.map(f).collect::<Option<Vec<_>>>()?`: a `?` on a collection of Options is a `?` on every element
+            return ("coll", tuple((src, tuple((ts, ("try", e)) for ts, e in alts)) for src, alts in inner[1]))
+        return ("try", inner)
     return norm(tuple(canon(x) if isinstance(x, tuple) else x for x in t))
+
+
+def exits_as_try(v):
+    """`match x { Some(y) => .. y .., None => return None }` (also as if-let / let-else) is `.. x? ..`: an early exit with None taken exactly
+    when the Option x is None is dropped, and the content of x is read as ('try', x) in what remains"""
+    if not (isinstance(v, tuple) and v[:1] == ("returns",)):
+        return v
+    none = ("ctor", "Option::None", ())
+    keep, opts = [], []
+    for conds, val in v[1]:
+        if conds != ("fallthrough",) and val == none and len(conds) == 1:
+            c, pol = conds[0][0], conds[0][1]
+            if isinstance(c, tuple) and c[:2] == ("iflet", "Option::Some(_)") and pol is False:
+                opts.append(c[2])
+                continue
+            if isinstance(c, tuple) and c[:1] == ("arm",) and c[2] in ("Option::None",) and pol is True:
+                opts.append(c[1])
+                continue
+        keep.append((conds, val))
+    if not opts:
+        return v
+
+    def go(x):
+        if not isinstance(x, tuple):
+            return x
+        if x[:2] == ("iflet", "Option::Some(_)") and len(x) == 3 and x[2] in opts:
+            return ("lit", True)
+        if x[:1] == ("proj",) and len(x) == 3 and x[1] in opts and x[2][:1] == (("Option::Some", "0"),):
+            rest = x[2][1:]
+            return ("proj", ("try", x[1]), rest) if rest else ("try", x[1])
+        return tuple(go(y) for y in x)
+    keep = [(conds if conds == ("fallthrough",) else tuple((go(c[0]),) + tuple(c[1:]) for c in conds), go(val)) for conds, val in keep]
+    if len(keep) == 1 and keep[0][0] == ("fallthrough",):
+        return keep[0][1]
+    return ("returns", tuple(keep))
 
 
 def show(groups, indent="  "):
